@@ -150,14 +150,15 @@ BoundTokens(n) ==
 
 ExpectedUpstream(f, T) ==
   LET c == flt[f]
-      idh == {[k |-> c.idHeader, pre |-> c.idPreamble, tok |-> T.id, append |-> FALSE]}
+      idh == {[kl |-> c.idHeaderL, pre |-> c.idPreamble, tok |-> T.id, append |-> FALSE]}      \* (header names compare without case)
   IN  IF c.accessFwd /\ T.at # "none"
-      THEN idh \cup {[k |-> c.atHeader, pre |-> c.atPreamble, tok |-> T.at, append |-> FALSE]}
+      THEN idh \cup {[kl |-> c.atHeaderL, pre |-> c.atPreamble, tok |-> T.at, append |-> FALSE]}
       ELSE idh
+UpProj(u) == [kl |-> u.kl, pre |-> u.pre, tok |-> u.tok, append |-> u.append]
 
 C02RespCauses(n, r) ==
   IF Outcome(r) # "ok" \/ ~BoundTokens(n).ex THEN {}
-  ELSE (IF RangeS(r.upstream) # ExpectedUpstream(r.f, BoundTokens(n)) THEN {"forwarded-not-equal-bound"} ELSE {})
+  ELSE (IF {UpProj(r.upstream[i]) : i \in DOMAIN r.upstream} # ExpectedUpstream(r.f, BoundTokens(n)) THEN {"forwarded-not-equal-bound"} ELSE {})
        \* whatever is forwarded must have been stored under the presented session by a SetTokenResponse
        \cup (IF ~Has(bound, Req(n).cookie) \/ BoundTokens(n).id \notin bound[Req(n).cookie] THEN {"forwarded-token-never-bound"} ELSE {})
 
@@ -399,6 +400,9 @@ C06RespCauses(n, r) ==
 C14RespCauses(n, r) ==
   (IF r.leaks # <<>> THEN {"leak:" \o r.leaks[1]} ELSE {})
   \cup (IF r.okExtra # <<>> THEN {"ok-adds:" \o r.okExtra[1]} ELSE {})
+  \* an OK answer adds no header to the upstream request but the ID-token header and, when configured, the access-token header
+  \cup (IF r.kind = "ok" /\ Has(flt, r.f) /\ \E i \in DOMAIN r.upstream : r.upstream[i].kl \notin ({flt[r.f].idHeaderL} \cup (IF flt[r.f].accessFwd THEN {flt[r.f].atHeaderL} ELSE {}))
+        THEN {"ok-adds-upstream-header"} ELSE {})
 
 (* C15 -- nothing crashes a check *)
 C15RespCauses(n, r) ==
@@ -498,7 +502,8 @@ NextAllowed(n) ==
   IN IF Len(es) = 0
      THEN IF q.kind = "logout" /\ flt[q.f].logout THEN (IF q.cookie = "none" THEN {"R:endsession"} ELSE {"S:RemoveSession"})
           ELSE IF q.cookie = "none" THEN {"S:SetAuthorizationState"}
-          ELSE IF q.kind = "callback" THEN (IF q.states = <<>> \/ q.codes = <<>> \/ q.states[1] = "none" \/ q.codes[1] = "none" THEN {"R:deny"} ELSE {"S:GetAuthorizationState"})   \* (an empty first value counts as missing)
+          ELSE IF q.kind = "callback" THEN (IF q.lenientQuery THEN {"R:deny", "S:GetAuthorizationState"}          \* strict and lenient query parsers differ here
+                                           ELSE IF q.states = <<>> \/ q.codes = <<>> \/ q.states[1] = "none" \/ q.codes[1] = "none" THEN {"R:deny"} ELSE {"S:GetAuthorizationState"})   \* (an empty first value counts as missing)
           ELSE {"S:GetTokenResponse"}
      ELSE
       LET x == es[Len(es)]
